@@ -1,6 +1,7 @@
 package main
 
 import (
+	"encoding/binary"
 	"fmt"
 	"os"
 	"sort"
@@ -287,6 +288,10 @@ func checkC08(c *ctx) {
 		"Levenshtein / regexp automata are exercised on ASCII terms (vellum's automata work on UTF-8 code points, the model on bytes)")
 	if bad := boundaryChain(c); bad != "" {
 		c.Violation("C08 dictionary counts along a merge chain crossing a chunk-size boundary\n"+bad, false)
+		return
+	}
+	if bad := congruentDictionaryOffsets(c); bad != "" {
+		c.Violation("C08 "+bad, false)
 		return
 	}
 	if bad := sharedBoundaryTerm(c); bad != "" {
@@ -701,5 +706,139 @@ func sharedBoundaryTerm(c *ctx) string {
 		c.Count("shared_boundary_term_generations")
 	}
 	c.Case("shared-boundary-term", true)
+	return ""
+}
+
+// dictLocOf reads, from the bytes of a segment file, the file offset of the term dictionary of a field
+// (footer -> fields index -> field record -> inverted section -> third uvarint).
+func dictLocOf(file []byte, field string) (uint64, bool) {
+	if len(file) < 52 {
+		return 0, false
+	}
+	secIdx := binary.BigEndian.Uint64(file[len(file)-52+24:])
+	if secIdx >= uint64(len(file)) {
+		return 0, false
+	}
+	nf, k := binary.Uvarint(file[secIdx:])
+	pos := secIdx + uint64(k)
+	for i := uint64(0); i < nf; i++ {
+		off := binary.BigEndian.Uint64(file[pos+8*i:])
+		nl, k := binary.Uvarint(file[off:])
+		p := off + uint64(k)
+		name := string(file[p : p+nl])
+		p += nl
+		ns, k := binary.Uvarint(file[p:])
+		p += uint64(k)
+		for j := uint64(0); j < ns; j++ {
+			typ := binary.BigEndian.Uint16(file[p:])
+			addr := binary.BigEndian.Uint64(file[p+2:])
+			p += 10
+			if name == field && typ == 0 && addr != 0 {
+				_, k1 := binary.Uvarint(file[addr:])
+				_, k2 := binary.Uvarint(file[addr+uint64(k1):])
+				dl, _ := binary.Uvarint(file[addr+uint64(k1)+uint64(k2):])
+				return dl, true
+			}
+		}
+	}
+	return 0, false
+}
+
+// congruentDictionaryOffsets: a segment in which the dictionaries of two fields start at file offsets
+// that differ by an exact multiple of 65536 (the field in between is padded until they do); every
+// field's dictionary is then read on ONE segment object and compared with the documents.
+func congruentDictionaryOffsets(c *ctx) string {
+	mk := func(padLen int) zh.Batch {
+		var b zh.Batch
+		for d := 0; d < 40; d++ {
+			doc := zh.Doc{Fields: []zh.Field{zh.IDField(fmt.Sprintf("g%03d", d)),
+				{Name: "aa", Len: 1, Toks: []zh.Tok{{Term: fmt.Sprintf("alpha%d", d%5), Freq: 1}}},
+				{Name: "cc", Len: 1, Toks: []zh.Tok{{Term: fmt.Sprintf("gamma%d", d%7), Freq: 1}}}}}
+			bb := zh.Field{Name: "bb", Len: 170}
+			for k := 0; k < 170; k++ {
+				bb.Toks = append(bb.Toks, zh.Tok{Term: fmt.Sprintf("pad-%02d-%03d-%s", d, k, strings.Repeat("x", 1+(d*7+k)%9)), Freq: 1})
+			}
+			if d == 0 {
+				bb.Toks = append(bb.Toks, zh.Tok{Term: "tune" + strings.Repeat("y", padLen), Freq: 1})
+				bb.Len++
+			}
+			doc.Fields = append(doc.Fields, bb)
+			b = append(b, doc)
+		}
+		return b
+	}
+	padLen := 10
+	var b zh.Batch
+	var sb *zap.SegmentBase
+	hit := false
+	var dist uint64
+	for try := 0; try < 40 && padLen < 60000; try++ {
+		b = mk(padLen)
+		var err error
+		sb, _, err = zh.Build(b, 1026)
+		must(err)
+		file, err := zh.FileBytes(sb)
+		must(err)
+		la, ok1 := dictLocOf(file, "aa")
+		lc, ok2 := dictLocOf(file, "cc")
+		if !ok1 || !ok2 {
+			return "the dictionary offsets cannot be located in the file (harness reader out of date)"
+		}
+		if lc < la {
+			la, lc = lc, la
+		}
+		dist = lc - la
+		if dist%65536 == 0 && dist > 0 {
+			hit = true
+			break
+		}
+		sb.Close()
+		if over := int(dist % 65536); over < 2000 && padLen-over > 0 {
+			padLen -= over // overshot by a few bytes (a varint grew)
+		} else {
+			padLen += 65536 - over
+		}
+	}
+	if !hit {
+		c.Count("congruent_dictionary_offsets_not_reached")
+		return ""
+	}
+	defer sb.Close()
+	spec, err := zh.SpecOf(c.M, b)
+	mustH(err)
+	c.Case("congruent-dictionary-offsets", true)
+	c.Count("segments_with_congruent_dictionary_offsets")
+	for _, order := range [][]string{{"aa", "cc", "bb", "_id"}, {"cc", "aa"}} {
+		seg, _, err := zh.PersistOpen(sb)
+		must(err)
+		for _, field := range order {
+			var terms []string
+			want := map[string]uint64{}
+			for _, fd := range spec.L[pDicts].L {
+				if string(fd.L[0].B) == field {
+					for _, te := range fd.L[1].L {
+						terms = append(terms, string(te.L[0].B))
+						want[string(te.L[0].B)] = uint64(len(te.L[1].L))
+					}
+				}
+			}
+			obs, card, bad := dictObserve(seg, field, nil, nil, nil, terms)
+			if bad == "" && (card != len(terms) || len(obs.L) != len(terms)) {
+				bad = fmt.Sprintf("the dictionary lists %d terms (Cardinality %d), the documents have %d", len(obs.L), card, len(terms))
+			}
+			if bad == "" {
+				for _, e := range obs.L {
+					if t := string(e.L[0].B); e.L[1].N != want[t] {
+						bad = fmt.Sprintf("term %q is reported with count %d, want %d", clip(t), e.L[1].N, want[t])
+					}
+				}
+			}
+			if bad != "" {
+				seg.Close()
+				return fmt.Sprintf("a segment in which the dictionaries of fields aa and cc start %d bytes apart (a multiple of 65536); dictionaries read in the order %v on one segment object; field %s: %s", dist, order, field, bad)
+			}
+		}
+		seg.Close()
+	}
 	return ""
 }
